@@ -84,8 +84,9 @@ theorem abort_erases_store_fresh (cat : Catalog) (ops : List Op) (tid : Nat) (t 
     exact hnc h2
 
 /-- the general history-level statement: the operations of ONE transaction that does not commit (from its `begin`
-    to its rollback / drop / refused commit, or to the end of the history) replaced by `nop` give every other
-    operation the same output.  Proved below for a session none of whose transactions commits. -/
+    to its rollback / drop) replaced by `nop` give every other operation the same output, also those of later —
+    possibly committing — transactions of the same session.  Proved below (`abort_erases`); a transaction whose
+    commit is REFUSED is not covered by this statement (its `commit` operation would have to be kept). -/
 def abort_erases_statement : Prop :=
   ∀ (cat : Catalog) (pre seg post : List Op) (s : String),
     lookup s (finalM Defects.none (State.init cat) pre).sessions = none →
@@ -94,6 +95,33 @@ def abort_erases_statement : Prop :=
     (run Defects.none cat (pre ++ eraseSess s seg ++ post)).2 =
       (run Defects.none cat pre).2 ++ maskOuts s seg ((run Defects.none cat (pre ++ seg)).2.drop pre.length) ++
         ((run Defects.none cat (pre ++ seg ++ post)).2.drop (pre.length + seg.length))
+
+theorem drop_outs_left (l : List Op) (α : Spec.State) (r : List Out) : (Spec.outs α l ++ r).drop l.length = r := by
+  have := List.drop_left (l₁ := Spec.outs α l) (l₂ := r)
+  rwa [Spec.outs_length] at this
+
+/-- **Abort erases (history level, one transaction).**  `seg` runs from a point where session `s` has no transaction
+    to a point where it has none again and contains no commit of `s` (its transactions there ended in ROLLBACK, a
+    session drop, or were replaced by the next `begin`): the history with the operations of `s` inside `seg` replaced by
+    `nop` answers every other operation — before, inside and AFTER `seg`, including later committing transactions of `s`
+    itself — exactly as the full history does. -/
+theorem abort_erases : abort_erases_statement := by
+  intro cat pre seg post s hpre hnc hseg
+  have hp : lookup s (Spec.final (Spec.State.init cat) pre).sessions = none := (reach_rel cat pre).sessNone s hpre
+  have hs : lookup s (Spec.final (Spec.State.init cat) (pre ++ seg)).sessions = none :=
+    (reach_rel cat (pre ++ seg)).sessNone s hseg
+  rw [Spec.final_append] at hs
+  obtain ⟨e1, e2⟩ := spec_erase_from s seg (Spec.final (Spec.State.init cat) pre) hnc
+  rw [dropSess_absent s _ hp] at e1 e2
+  rw [dropSess_absent s _ hs] at e1
+  rw [refine_run, refine_run, refine_run, refine_run, spec_run_outs, spec_run_outs, spec_run_outs, spec_run_outs]
+  rw [Spec.outs_append, Spec.outs_append, Spec.final_append, e1, e2]
+  rw [Spec.outs_append pre seg, drop_outs_left]
+  rw [Spec.outs_append (pre ++ seg) post, Spec.outs_append pre seg, Spec.final_append]
+  have hlen : pre.length + seg.length = (Spec.outs (Spec.State.init cat) pre ++
+      Spec.outs (Spec.final (Spec.State.init cat) pre) seg).length := by
+    simp [Spec.outs_length]
+  rw [hlen, List.drop_left]
 
 /-- **Abort erases (history level).**  If session `s` never commits (each of its transactions ends in ROLLBACK, a
     session drop, is implicitly rolled back by the next `begin`, or stays open), the history with all of its operations
